@@ -22,7 +22,7 @@ CHECKS = {
         technique=E2,
     ),
     "C03": dict(
-        text="For every enumerated code the advertised length/dimension/rate equal the shape facts of the published G, the TRUE minimum distance (exact enumeration of the row space of G, or MacWilliams via the dual) is >= the advertised one and equal where an exact value is documented; cyclic/BCH codes: g | X^n+1, g.h = X^n+1, deg g = n-k, every cyclic shift of every generator row stays in the row space, every row is a multiple of g, alpha^1..alpha^(delta-1) are roots of the BCH generator and its degree is the lcm degree; perfect codes meet the sphere-packing bound with equality. For k<=8 (thorough 11) the distance bound is additionally proved for all messages through the real forward() (z3). Closed obligations are decided exactly (ground), not sampled. Parameter sequences: several encoders of one family built and queried in one process are each compared with their own exact distance.",
+        text="For every enumerated code the advertised length/dimension/rate equal the shape facts of the published G, the TRUE minimum distance (exact enumeration of the row space of G, or MacWilliams via the dual) is >= the advertised one and equal where an exact value is documented; cyclic/BCH codes: g | X^n+1, g.h = X^n+1, deg g = n-k, every cyclic shift of every generator row stays in the row space, every row is a multiple of g, alpha^1..alpha^(delta-1) are roots of the BCH generator and its degree is the lcm degree; perfect codes meet the sphere-packing bound with equality. For k<=8 (thorough 11) the distance bound is additionally proved for all messages through the real forward() (z3). Closed obligations are decided exactly (ground), not sampled. Parameter sequences: several encoders of one family built and queried in one process are each compared with their own exact distance. BCH(31,21) and BCH(31,16) in the quick grid (the first BCH codes whose generator is not a minimum-weight word).",
         note="Trusted: vk.ground (exact GF(2)/GF(2)[x] kernel independent of /repo), C01's contract forward(x)==x.G linking G to the encoder. Bound: the configuration grid (the property's own size bounds in thorough tier). Known finding: the binary Reed-Solomon-style construction has true distance 1.",
         design="7/C03",
         technique="contracts as closed obligations on the objects the real constructors build, decided exactly by the ground GF(2) kernel (complete enumeration); distance clause also proved symbolically through the real forward() for small k",
@@ -34,14 +34,14 @@ CHECKS = {
         technique=E2 + "; bounded native stand-in for Berlekamp-Massey and majority-logic decoding",
     ),
     "C19": dict(
-        text="Shape contract proved for ALL batch/height/width (unbounded): the real encoder/decoder modules of 8 published pairs run under FakeTensorMode+ShapeEnv with symbolic B,H,W; size expressions and guards are translated to z3 and decoder(encoder(x)).shape == x.shape, latent size == documented ratio, guard coverage (case split), cover and canary are discharged under 2^L | H,W with L read from the real module. Differentiability: AST taint analysis of the real forward methods (no detach/item/float/re-wrap on signal-dependent values) and autograd-graph reachability as discharged obligations; gradcheck and end-to-end encoder gradients as bounded stand-ins.",
+        text="Shape contract proved for ALL batch/height/width (unbounded): the real encoder/decoder modules of 8 published pairs run under FakeTensorMode+ShapeEnv with symbolic B,H,W; size expressions and guards are translated to z3 and decoder(encoder(x)).shape == x.shape, latent size == documented ratio, guard coverage (case split), cover and canary are discharged under 2^L | H,W with L read from the real module. Differentiability: AST taint analysis of the real forward methods (no detach/item/float/re-wrap on signal-dependent values) and autograd-graph reachability as discharged obligations; gradcheck and end-to-end encoder gradients as bounded stand-ins. Bounded: gradients stay finite on inputs with exactly-zero samples; the NOMA wrapper back-propagates into every device encoder it runs, over its option grid.",
         note="Trusted: PyTorch meta kernels/ShapeEnv guard recording (differentially checked every run), sympy->z3 translation, autograd correctness. Gradients vs finite differences are floating point: bounded only. Model wrappers with data-dependent branches fall to bounded shape checks.",
         design="7/C19",
         technique="contracts on the real nn.Modules discharged with symbolic shapes (FakeTensorMode/ShapeEnv -> z3, all B,H,W); AST taint analysis for the no-detach frame condition; gradcheck as bounded stand-in",
         engine="vk-E3-symshape",
     ),
     "C12": dict(
-        text="With torch.rand_like replaced by its contract (fresh independent symbols in [0,1), universally quantified), the real forward() of the three binary channels is executed on symbolic inputs over each alphabet, a symbolic probability p in [0,1] and symbolic draws, all paths: BSC y_i = x_i xor [u_i<p]; BEC y_i = erasure if u_i<p else x_i; Z-channel 0 stays 0 and 1 -> [not u<p] with exactly one draw per one; alphabet preservation, p=0 identity, p=1 extreme, per-position dependence, input unmodified - discharged for all x, p, u per dtype/shape/alphabet configuration. The distributional statement follows by the moment lemma from the proved per-element law. Each channel also after the same object transmitted a block of the other alphabet.",
+        text="With torch.rand_like replaced by its contract (fresh independent symbols in [0,1), universally quantified), the real forward() of the three binary channels is executed on symbolic inputs over each alphabet, a symbolic probability p in [0,1] and symbolic draws, all paths: BSC y_i = x_i xor [u_i<p]; BEC y_i = erasure if u_i<p else x_i; Z-channel 0 stays 0 and 1 -> [not u<p] with exactly one draw per one; alphabet preservation, p=0 identity, p=1 extreme, per-position dependence, input unmodified - discharged for all x, p, u per dtype/shape/alphabet configuration. The distributional statement follows by the moment lemma from the proved per-element law. Each channel also after the same object transmitted a block of the other alphabet. Closed: every erasure-symbol option incl. non-finite symbols - output is input or erasure symbol.",
         note="Assumed (never proved): torch.rand_like yields independent uniform variates. Shapes up to 4 elements (the law is per element and the obligation shows each output depends on its own input and draw only).",
         design="7/C12",
         technique=E2 + "; RNG replaced by its contract (fresh quantified symbols)",
@@ -66,7 +66,7 @@ CHECKS = {
         engine="vk-E1-vcgen",
     ),
     "C16": dict(
-        text="forward of BitErrorRate / BlockErrorRate (+SER/FER aliases) and the StandardMetrics helpers == exact counts for ALL binary tensor pairs of the enumerated shapes/block sizes (symbolic bits; hence symmetric, zero iff equal, BER <= BLER <= min(1, B.BER)); non-divisor block sizes rejected. Streaming form as a data structure with abstract view (T,E): update proved for a SYMBOLIC prior state and symbolic batch ((T,E) -> (T+n, E+d), frame), compute and reset likewise; with the fold lemma this gives partition/order independence for histories of any length. Exhaustive short histories are a bounded cross-check. Helper BLER also on 2-D inputs.",
+        text="forward of BitErrorRate / BlockErrorRate (+SER/FER aliases) and the StandardMetrics helpers == exact counts for ALL binary tensor pairs of the enumerated shapes/block sizes (symbolic bits; hence symmetric, zero iff equal, BER <= BLER <= min(1, B.BER)); non-divisor block sizes rejected. Streaming form as a data structure with abstract view (T,E): update proved for a SYMBOLIC prior state and symbolic batch ((T,E) -> (T+n, E+d), frame), compute and reset likewise; with the fold lemma this gives partition/order independence for histories of any length. Exhaustive short histories are a bounded cross-check. Helper BLER also on 2-D inputs. Closed, exhaustive: accumulated == one-shot also for soft inputs exactly on the decision threshold.",
         note="Trusted: vk engine, lemma L-fold. Floats as reals (counter rounding above 2^24 not modelled).",
         design="7/C16",
         technique=E2 + "; data-structure contract with symbolic prior state + induction lemma",
@@ -103,7 +103,7 @@ CHECKS = {
         technique=E2 + "; nearest-point / max-log queries linearised by cancelling |y|^2",
     ),
     "C15": dict(
-        text="Producers: every soft demodulator of C06, symbolic bits through the real modulator and soft demodulator: llr_k > 0 <=> bit_k == 0. Consumers in LLR mode (LLR / weighted / ensemble / hysteresis outside the dead zone / adaptive (polarity) / dynamic (polarity) / min-distance thresholders, repetition soft-bit decoder, llr_to_bits, sign_to_bin): out == [llr < 0] for all real llr != 0 per element; LLRThresholder soft output == sigmoid(-llr), strictly decreasing (sigmoid axiomatised). Pairing consumer(producer(bits)) == bits executed directly for QPSK/16-QAM x 9 consumers. Soft-input decoders as consumers are C10/C11.",
+        text="Producers: every soft demodulator of C06, symbolic bits through the real modulator and soft demodulator: llr_k > 0 <=> bit_k == 0. Consumers in LLR mode (LLR / weighted / ensemble / hysteresis outside the dead zone / adaptive (polarity) / dynamic (polarity) / min-distance thresholders, repetition soft-bit decoder, llr_to_bits, sign_to_bin): out == [llr < 0] for all real llr != 0 per element; LLRThresholder soft output == sigmoid(-llr), strictly decreasing (sigmoid axiomatised). Pairing consumer(producer(bits)) == bits executed directly for QPSK/16-QAM x 9 consumers. Soft-input decoders as consumers are C10/C11. Closed, exhaustive: string and enum spellings of input_type select the same consumer.",
         note="Known finding: FixedThresholder in LLR mode is inverted and pinned by a test. Interpretation notes (adaptive/dynamic thresholds depend on the batch mean; hysteresis dead zone) are stated as separate clauses in contracts/c15.py.",
         design="7/C15",
         technique=E2,
@@ -127,7 +127,7 @@ CHECKS = {
         technique=E2 + "; bounded native stand-in for the iterative PAPR constraint",
     ),
     "C09": dict(
-        text="The whole real ChannelCodeModel.forward (real encoder, modulator, IdentityConstraint, channel, demodulator, decoder) is executed on a symbolic message for 8 (code, decoder) x 6 modulation pairings with (a) the ideal channel, (b) a LambdaChannel displacing every symbol by a symbolic delta within half the minimum distance - proved for the larger polyhedral set of all delta with delta.(c_j - c_i) < |c_j - c_i|^2/2, which contains the ball by the per-constellation triangle lemma (discharged separately by z3) - and (c) a LambdaChannel flipping at most t code bits per block (BPSK/QPSK component sign flips): decoded == message for ALL messages and ALL admissible displacements / flip patterns. Soft-decision chains (soft demodulation with the noise variance forwarded through the pipeline into Wagner / SC min-sum / soft Reed-Muller decoders; BPSK and QPSK): ideal channel for every noise variance > 0 (symbolic), displaced symbols on a grid of variances. Stage order and fold are C17; per-stage contracts C01/C02/C05/C06. Berlekamp-Massey in the chain: bounded stand-in. Consecutive transmissions: three batched transmissions with odd symbol counts through ONE pipeline with the stateful pi/4-QPSK pair in default training mode, all messages.",
+        text="The whole real ChannelCodeModel.forward (real encoder, modulator, IdentityConstraint, channel, demodulator, decoder) is executed on a symbolic message for 8 (code, decoder) x 6 modulation pairings with (a) the ideal channel, (b) a LambdaChannel displacing every symbol by a symbolic delta within half the minimum distance - proved for the larger polyhedral set of all delta with delta.(c_j - c_i) < |c_j - c_i|^2/2, which contains the ball by the per-constellation triangle lemma (discharged separately by z3) - and (c) a LambdaChannel flipping at most t code bits per block (BPSK/QPSK component sign flips): decoded == message for ALL messages and ALL admissible displacements / flip patterns. Soft-decision chains (soft demodulation with the noise variance forwarded through the pipeline into Wagner / SC min-sum / soft Reed-Muller decoders; BPSK and QPSK): ideal channel for every noise variance > 0 (symbolic), displaced symbols on a grid of variances. Stage order and fold are C17; per-stage contracts C01/C02/C05/C06. Berlekamp-Massey in the chain: bounded stand-in. Consecutive transmissions: three batched transmissions with odd symbol counts through ONE pipeline with the stateful pi/4-QPSK pair in default training mode, all messages. Link pairings include 'right' / custom information sets and real-valued BPSK output.",
         note="Trusted: vk engine; triangle lemma proved on the exact rational constellation values. Pairings are an enumerated grid (quick: at most 16 code bits per call). Soft chains with displaced QPSK symbols for 8-bit codes exceed the solver budget (quadratic LLRs) and are left to C10/C11/C15.",
         design="7/C09",
         technique=E2 + " on the whole pipeline; displacement precondition linearised through a separately proved triangle lemma",
